@@ -48,3 +48,9 @@ claim("C12",
   "Decides structural necessary conditions of C12 for every tree and value assignment: merge pass top-down before exact pass bottom-up; the five hierarchical files use mergeable updaters with the matching condition; nothing is written unless needUpdate/needMerge says so and the merged value is what is written; the cached updater always carries the content the file now holds (so the target is reached); old and new values are treated alike by the merge conditions; the BE cpuset union is written top-down before the target bottom-up. It does not decide the validity of each intermediate content for concrete values.",
   "trusts go/ssa loop shapes (rotated range loops are recognised) and the rule tables in internal/rules/c12.go",
   "DESIGN.md §4 C12")
+
+claim("C01",
+  "custom SSA rules: argument-matched pairing/ordering path rules over the six pod-event entry points (conditional-constant exploration), bracket rule on every new-minus-old delta, provenance rule for deltas applied to a parent, must-execute rule for the rebuild replay, must-lockset on the manager's maps",
+  "Decides structural necessary conditions of C01 for every event history and schedule: cache/request/used/assigned updates are paired and correctly ordered in every entry point (nothing left behind, nothing removed after the pod left the cache); upward deltas are new-minus-old around the mutation; what a parent loses on delete/re-parent is the max-limited request it had received; a tree rebuild replays every saved quota; the manager's maps are written only under the hierarchy write lock. It does not decide that the deltas add up to recomputed totals, nor read-side races on QuotaInfo.",
+  "trusts go/ssa and the rule tables in internal/rules/c01.go; per-QuotaInfo locking through scopedLockForQuotaInfo is not modelled (element-wise lock lists are outside access-path locksets)",
+  "DESIGN.md §4 C01")
